@@ -421,6 +421,8 @@ func isNumCV(v interface{}) bool {
 	return false
 }
 
+var evalDepth int
+
 func (c *cenv) ev(e *Expr) (interface{}, bool) {
 	switch e.Op {
 	case "int":
@@ -693,6 +695,23 @@ func cvEqual(a, b interface{}) (bool, bool) {
 }
 
 func (c *cenv) call(e *Expr) (interface{}, bool) {
+	if e.Name == "ite" && len(e.Args) == 3 {
+		// lazy: recursive ghost definitions guard their recursion with ite
+		cv, ok := c.ev(e.Args[0])
+		cnd, isb := cv.(bool)
+		if !ok || !isb {
+			return nil, false
+		}
+		if cnd {
+			return c.ev(e.Args[1])
+		}
+		return c.ev(e.Args[2])
+	}
+	evalDepth++
+	defer func() { evalDepth-- }()
+	if evalDepth > 5000 {
+		return nil, false
+	}
 	var a []interface{}
 	for _, x := range e.Args {
 		v, ok := c.ev(x)
